@@ -416,6 +416,18 @@ def post_steps(src):
     return out
 
 
+def prefix_cli_args(src):
+    m = re.search(r"impl ParseCallbacks for PrefixLinkNameCallback \{", src)
+    if not m:
+        raise TranslateError("%s: impl ParseCallbacks for PrefixLinkNameCallback not found" % CLI)
+    body = norm(src[m.end():braces(src, m.end() - 1) - 1])
+    if "fn cli_args" not in body:
+        return False
+    if 'fn cli_args(&self) -> Vec<String> { vec!["--prefix-link-name".to_owned(), self.prefix.clone()] }' not in body:
+        raise TranslateError("%s: PrefixLinkNameCallback::cli_args not in the modelled form" % CLI)
+    return True
+
+
 # ------------------------------------------------------------------ output
 
 def ident(flag):
@@ -591,6 +603,8 @@ structure CliArm where
             "some %d" % h[2] if h else "none", "some ." + h[0] if h else "none", cmap[h[1]] if h else ".fromValue",
             ", ".join("." + ident(flag_of[x]) for x in c["conflicts"]), "true" if c["experimental"] else "false"))
     o.append("\ndef cliArms : List CliArm := [%s]\n" % ", ".join(anames))
+    o.append("/-- does `PrefixLinkNameCallback` implement `cli_args` (re-emitting `--prefix-link-name <prefix>`)? -/")
+    o.append("def prefixLinkNameCliArgs : Bool := %s\n" % ("true" if prefix_cli_args(cli) else "false"))
     o.append("end BindgenModel.Generated\n")
     text = "\n".join(o)
     text = re.sub(r"\(\.(\w+), (\.const (?:true|false)|\.constWhenArg (?:true|false) (?:true|false))\)", r"(.\1, \2)", text)
